@@ -58,7 +58,30 @@ def realize_abc(rel, n, extra_ns=None):
     return cls
 
 
+def realize_hook(rel, n, extra_ns=None):
+    """realisation of an arbitrary reflexive-transitive relation, including two distinct classes that are subclasses
+    of each other (structurally identical protocols): ABCs answering issubclass through __subclasshook__"""
+    import abc
+
+    cls = []
+    for i in range(n):
+        ns = {"_idx": i}
+        if extra_ns:
+            ns.update(extra_ns(i))
+
+        def hook(c, sub, i=i):
+            j = getattr(sub, "_idx", None)
+            if j is None:
+                return NotImplemented
+            return bool(rel[j][i])
+        ns["__subclasshook__"] = classmethod(hook)
+        cls.append(abc.ABCMeta(f"K{i}", (), ns))
+    return cls
+
+
 def realize(rel, n, extra_ns=None):
+    if any(rel[i][j] and rel[j][i] for i in range(n) for j in range(n) if i != j):
+        return realize_hook(rel, n, extra_ns)
     if REAL_MODE[0] == "abc":
         return realize_abc(rel, n, extra_ns)
     return _realize_inherit(rel, n, extra_ns)
@@ -86,7 +109,7 @@ class World:
     """n harness classes with a symbolic (or, for replay, real) subclass relation, and
     integer priorities p0..  `object` has index n and sits above everything."""
 
-    def __init__(self, ex, n, nprio=0, real=False, extra_ns=None, prefix="", hm_names=()):
+    def __init__(self, ex, n, nprio=0, real=False, extra_ns=None, prefix="", hm_names=(), antisym=True):
         self.ex = ex
         self.hm_names = tuple(hm_names)
         self.n = n
@@ -101,7 +124,7 @@ class World:
             for j in range(n):
                 if i == j:
                     continue
-                if i < j:
+                if i < j and antisym:
                     valid.append(z3.Not(z3.And(self.R[i][j], self.R[j][i])))
                 for k in range(n):
                     if k != i and k != j:
